@@ -784,3 +784,126 @@ func R9NameIdentity(c *Ctx) {
 		}
 	}
 }
+
+// R9DBShape — statement shapes in pkg/db that decide which rows are touched and how values are spelled.
+func R9DBShape(c *Ctx) {
+	const rule = "R9-db-shape"
+	c.R.Rule(rule, "pkg/db: the WHERE clause of every DELETE and UPDATE is a conjunction of `column = ?` tests (no OR, LIKE or range), so it touches exactly the keyed row(s); a function that returns a slice reads its SELECT through Query and a rows.Next() loop (QueryRow yields at most one row); every base64 codec used to store or restore a column is the same encoding object", 6)
+	pk := c.P.ByPath[PkgDB]
+	if pk == nil {
+		c.R.Anchor(rule, PkgDB)
+		return
+	}
+	codecs := map[string][]token.Pos{}
+	for _, f := range pk.Syntax {
+		for _, d := range f.Decls {
+			fd, ok := d.(*ast.FuncDecl)
+			if !ok || fd.Body == nil {
+				continue
+			}
+			fname := DeclShort(pk, fd)
+			returnsSlice := false
+			if fd.Type.Results != nil {
+				for _, r := range fd.Type.Results.List {
+					if t := pk.TypesInfo.TypeOf(r.Type); t != nil {
+						if _, ok := t.Underlying().(*types.Slice); ok {
+							returnsSlice = true
+						}
+					}
+				}
+			}
+			hasNextLoop := false
+			ast.Inspect(fd.Body, func(n ast.Node) bool {
+				if fs, ok := n.(*ast.ForStmt); ok && fs.Cond != nil && isRowsNext(pk, fs.Cond) {
+					hasNextLoop = true
+				}
+				return true
+			})
+			ast.Inspect(fd.Body, func(n ast.Node) bool {
+				switch x := n.(type) {
+				case *ast.SelectorExpr:
+					if obj, ok := pk.TypesInfo.Uses[x.Sel].(*types.Var); ok && obj.Pkg() != nil && obj.Pkg().Path() == "encoding/base64" {
+						codecs[obj.Name()] = append(codecs[obj.Name()], x.Pos())
+					}
+				case *ast.CallExpr:
+					if len(x.Args) == 0 {
+						return true
+					}
+					fn := Callee(pk.TypesInfo, x)
+					if fn == nil || fn.Pkg() == nil || fn.Pkg().Path() != "database/sql" {
+						return true
+					}
+					switch fn.Name() {
+					case "Prepare", "Exec", "Query", "QueryRow":
+					default:
+						return true
+					}
+					tv, ok := pk.TypesInfo.Types[x.Args[0]]
+					if !ok || tv.Value == nil || tv.Value.Kind() != constant.String {
+						return true
+					}
+					st := parseSQL(constant.StringVal(tv.Value))
+					if st == nil {
+						return true
+					}
+					if (st.Kind == "delete" || st.Kind == "update") && strings.TrimSpace(st.WhereTx) != "" {
+						w := " " + strings.ToUpper(st.WhereTx) + " "
+						bad := ""
+						for _, kw := range []string{" OR ", " LIKE ", " GLOB ", " IN ", " NOT ", "<", ">", "!="} {
+							if strings.Contains(w, kw) {
+								bad = strings.TrimSpace(kw)
+							}
+						}
+						terms := len(reCond.FindAllString(st.WhereTx, -1))
+						ands := strings.Count(w, " AND ")
+						construct := strings.ToUpper(st.Kind) + " " + st.Table + " WHERE " + strings.Join(st.Where, " AND ")
+						if bad == "" && terms >= 1 && ands == terms-1 {
+							c.R.Ok(rule, fname, construct, c.pos(x.Pos()), "a conjunction of "+itoa(terms)+" key test(s)", true)
+						} else {
+							c.R.Bad(rule, fname, strings.ToUpper(st.Kind)+" "+st.Table+" WHERE …", c.pos(x.Pos()), "the WHERE clause `"+st.WhereTx+"` is not a plain conjunction of `column = ?` tests: the statement touches rows other than the keyed one (e.g. every link of the parent, or every row naming the child)")
+						}
+					}
+					if st.Kind == "select" && returnsSlice {
+						construct := "SELECT " + st.Table + " into a slice: Query + rows.Next() loop"
+						if fn.Name() == "QueryRow" || !hasNextLoop {
+							c.R.Bad(rule, fname, construct, c.pos(x.Pos()), "a function that returns a list reads its SELECT with QueryRow / without a rows.Next() loop: at most the first row is returned, the other persisted rows are lost at restore")
+						} else {
+							c.R.Ok(rule, fname, construct, c.pos(x.Pos()), "all rows are iterated", true)
+						}
+					}
+				}
+				return true
+			})
+		}
+	}
+	// one codec
+	if len(codecs) > 1 {
+		var names []string
+		for n := range codecs {
+			names = append(names, n)
+		}
+		sort.Strings(names)
+		// the minority is the defect
+		minor := names[0]
+		for _, n := range names {
+			if len(codecs[n]) < len(codecs[minor]) {
+				minor = n
+			}
+		}
+		for _, p := range codecs[minor] {
+			c.R.Bad(rule, "db", "one base64 codec for stored columns", c.pos(p), "base64."+minor+" is used here while the other "+itoa(totalLen(codecs)-len(codecs[minor]))+" sites use a different encoding: a value written with one alphabet and read with the other decodes to nothing or to truncated bytes (keys containing + or /)")
+		}
+	} else if len(codecs) == 1 {
+		for n, ps := range codecs {
+			c.R.Ok(rule, "db", "one base64 codec for stored columns", c.pos(ps[0]), "all "+itoa(len(ps))+" sites use base64."+n, true)
+		}
+	}
+}
+
+func totalLen(m map[string][]token.Pos) int {
+	n := 0
+	for _, v := range m {
+		n += len(v)
+	}
+	return n
+}
